@@ -28,12 +28,7 @@ ASSERT_FLOOR = 100
 
 
 def short(path):
-    """def path used in instance keys: impl headers and lifetimes elided, closures unnumbered (a closure added or removed
-    elsewhere in the parent must not rename the keys of the others)."""
-    p = re.sub(r"<impl [^>]*>+", "<impl>", path)
-    p = re.sub(r"::<'[a-z_]+(?:, ?[A-Z'a-z_]+)*>", "", p)
-    p = re.sub(r"\{closure#\d+\}", "{closure}", p)
-    return p
+    return M.fn_key(path)
 
 
 def block_state(f, bi):
@@ -261,7 +256,7 @@ def run(F, R, tier):
             members = tuple(sorted(set(short(keypath.get(nodes[x]["key"], nodes[x]["key"])) for x in comp)))
             cyc.add(members)
     for members in sorted(cyc):
-        key = "cycle:" + " <-> ".join("::".join(m.split("::")[-2:]) for m in members)
+        key = "cycle:" + " <-> ".join(sorted(m.split("::", 1)[1] if "::" in m else m for m in members))
         ok = False
         why = "recursive cycle in the instance graph: %s" % ", ".join(members)
         if key in R.reviewed:
